@@ -136,6 +136,8 @@ def _work(job):
     i, seed = job
     t0 = time.time()
     plan = _MOD.gen(seed, _TIER, i)
+    if hasattr(_MOD, "prepare"):
+        plan = _MOD.prepare(plan, _Z)
     r = _Z.run(plan)
     viols, cov = eval_run(_MOD, plan, r)
     out = {"i": i, "seed": seed, "hash": r.hash, "viols": viols, "cov": cov, "wall": time.time() - t0,
@@ -453,7 +455,9 @@ def do_mkknown(a):
     plan = None
     for i in range(a.maxindex):
         if run_seed(int(os.environ.get("VERIF_SEED", "1")), prop, i) == a.seed:
-            plan = mod.gen(a.seed, "quick", i); break
+            plan = mod.gen(a.seed, "quick", i)
+            if hasattr(mod, "prepare"): plan = mod.prepare(plan, z)
+            break
     if plan is None:
         print("seed not found among the first %d indices" % a.maxindex); return 2
     want = dict(kv.split("=", 1) for kv in a.match)
